@@ -1,7 +1,333 @@
-/- Helper lemmas for LC/Props/C08.lean. TO BE PROVED (no sorry may remain). -/
+/-
+Helper lemmas for LC/Props/C08.lean: UTF-8 decoder width/locality, the buffered
+read loop equals whole-input decoding, padding, reader errors.  Core Lean only.
+-/
 import LC.Model.V2Tok
 namespace LC.V2Tok
 open LC.Utf8
--- required: decodeRune_width', decodeRune_local', feed_eq_decodeAll', feed_pad',
---           stableTail_of_ascii_end', feedR_spec', nonvacuous_example
+
+/-! ### decodeRune: width and locality -/
+
+theorem decodeRune_width' (p : List UInt8) (h : p ≠ []) :
+    1 ≤ (decodeRune p).2 ∧ (decodeRune p).2 ≤ 4 ∧ (decodeRune p).2 ≤ p.length := by
+  match p, h with
+  | [a], _ => unfold decodeRune; simp only []; repeat' split
+              all_goals simp
+  | [a, b], _ => unfold decodeRune; simp only []; repeat' split
+                 all_goals simp
+  | [a, b, c], _ => unfold decodeRune; simp only []; repeat' split
+                    all_goals simp
+  | a :: b :: c :: d :: rest, _ => unfold decodeRune; simp only []; repeat' split
+                                   all_goals simp
+
+theorem decodeRune_local' (p q : List UInt8) (h : 4 ≤ p.length) : decodeRune (p ++ q) = decodeRune p := by
+  match p, h with
+  | a :: b :: c :: d :: rest, _ => 
+    simp only [List.cons_append]
+    unfold decodeRune; rfl
+
+theorem isCont_of_ascii (b : UInt8) (hb : b.toNat < 0x80) : isCont b = false := by
+  simp [isCont]; omega
+
+theorem decodeRune_ascii_end (s t : List UInt8) (b : UInt8) (hb : b.toNat < 0x80) :
+    decodeRune (s ++ [b] ++ t) = decodeRune (s ++ [b]) := by
+  have hc := isCont_of_ascii b hb
+  match s with
+  | [] => simp [decodeRune, hb]
+  | [a] => 
+    simp only [List.cons_append, List.nil_append]
+    unfold decodeRune; simp only [hc]
+    repeat' split
+    all_goals first | rfl | (simp_all <;> omega)
+  | [a, c] => 
+    simp only [List.cons_append, List.nil_append]
+    unfold decodeRune; simp only [hc]
+    repeat' split
+    all_goals first | rfl | (simp_all <;> omega)
+  | a :: c :: d :: rest => 
+    rw [decodeRune_local']
+    simp
+
+/-! ### StableTail -/
+
+theorem stableTail_nil : StableTail [] := by
+  intro s t hs hsuf
+  simp at hsuf; exact absurd hsuf hs
+
+theorem stableTail_of_ascii_end' (bs : List UInt8) (b : UInt8) (hb : b.toNat < 0x80) :
+    StableTail (bs ++ [b]) ∧ StableTail [] := by
+  refine ⟨?_, stableTail_nil⟩
+  intro s t hs hsuf
+  rcases List.eq_nil_or_concat s with h | ⟨s', c, h⟩
+  · exact absurd h hs
+  · subst h
+    have : c = b := by
+      obtain ⟨u, hu⟩ := hsuf
+      have := congrArg List.getLast? hu
+      simpa using this
+    subst this
+    simpa using decodeRune_ascii_end s' t c hb
+
+
+/-! ### decodeAll unfolding -/
+
+theorem decodeAll_nil : decodeAll ([] : List UInt8) = [] := by
+  simp [decodeAll, decodeAllW]
+
+theorem decodeAll_ne_nil (p : List UInt8) (h : p ≠ []) :
+    decodeAll p = (decodeRune p).1 :: decodeAll (p.drop (decodeRune p).2) := by
+  have hw := (decodeRune_width' p h).1
+  match p, h with
+  | a :: rest, _ =>
+    have hm : max 1 (decodeRune (a :: rest)).2 = (decodeRune (a :: rest)).2 := Nat.max_eq_right hw
+    simp only [decodeAll]
+    rw [decodeAllW]
+    simp only [List.map_cons, hm]
+
+/-! ### StableTail closure -/
+
+theorem StableTail.of_suffix {l s : List UInt8} (h : StableTail l) (hs : s <:+ l) : StableTail s :=
+  fun u t hu hsuf => h u t hu (hsuf.trans hs)
+
+theorem StableTail.cons_ascii {l : List UInt8} (h : StableTail l) (b : UInt8) (hb : b.toNat < 0x80) :
+    StableTail (b :: l) := by
+  intro s t hs hsuf
+  rcases List.suffix_cons_iff.mp hsuf with heq | hsuf'
+  · subst heq
+    simp [decodeRune, hb]
+  · exact h s t hs hsuf'
+
+/-! ### the window loop -/
+
+theorem decodeWindow_ge : ∀ (fuel : Nat) (win : List UInt8) (tgt idx : Nat), tgt ≤ idx + fuel →
+    tgt ≤ (decodeWindow win tgt idx fuel).2 ∧ idx ≤ (decodeWindow win tgt idx fuel).2 := by
+  intro fuel
+  induction fuel with
+  | zero => intro win tgt idx h; simp [decodeWindow]; omega
+  | succ fuel ih =>
+    intro win tgt idx h
+    by_cases hlt : idx < tgt
+    · have := ih (win.drop (max 1 (decodeRune win).2)) tgt (idx + max 1 (decodeRune win).2) (by omega)
+      simp only [decodeWindow, hlt, if_true]
+      omega
+    · simp only [decodeWindow, hlt, if_false]
+      omega
+
+/-- If at every position before `tgt` the decoder sees in the window `win` what it would see
+in the genuine input `g`, the window loop produces an initial segment of the runes of `g`. -/
+theorem win_spec : ∀ (fuel : Nat) (win g : List UInt8) (tgt idx : Nat), tgt ≤ idx + fuel →
+    (∀ p, idx + p < tgt → p < g.length ∧ decodeRune (win.drop p) = decodeRune (g.drop p)) →
+    ∃ m, (decodeWindow win tgt idx fuel).2 = idx + m ∧ m ≤ g.length ∧ tgt ≤ idx + m ∧
+      idx + m ≤ max idx (tgt + 3) ∧
+      decodeAll g = (decodeWindow win tgt idx fuel).1 ++ decodeAll (g.drop m) := by
+  intro fuel
+  induction fuel with
+  | zero =>
+    intro win g tgt idx h _
+    refine ⟨0, ?_⟩
+    simp [decodeWindow]; omega
+  | succ fuel ih =>
+    intro win g tgt idx h H
+    by_cases hlt : idx < tgt
+    · obtain ⟨hg, hd⟩ := H 0 (by omega)
+      simp only [List.drop_zero] at hd
+      have hne : g ≠ [] := List.ne_nil_of_length_pos hg
+      obtain ⟨hw1, hw4, hwl⟩ := decodeRune_width' g hne
+      have hm : max 1 (decodeRune g).2 = (decodeRune g).2 := Nat.max_eq_right hw1
+      obtain ⟨m, h1, h2, h3, h4, h5⟩ := ih (win.drop (decodeRune g).2) (g.drop (decodeRune g).2) tgt
+        (idx + (decodeRune g).2) (by omega) (by
+          intro p hp
+          obtain ⟨a, b⟩ := H ((decodeRune g).2 + p) (by omega)
+          refine ⟨by simp only [List.length_drop]; omega, ?_⟩
+          simpa only [List.drop_drop] using b)
+      refine ⟨(decodeRune g).2 + m, ?_⟩
+      simp only [decodeWindow, hlt, if_true, hd, hm]
+      simp only [List.length_drop] at h2
+      refine ⟨by omega, by omega, by omega, by omega, ?_⟩
+      rw [decodeAll_ne_nil g hne, h5, List.drop_drop]
+      simp
+    · refine ⟨0, ?_⟩
+      simp only [decodeWindow, hlt, if_false]
+      simp; omega
+
+/-! ### the read loop -/
+
+theorem readLoop_short (src buf : List UInt8) (idx fuel : Nat) (h : src.length < bufSize - idx) :
+    readLoop src buf idx (fuel + 1) =
+      (decodeWindow (buf.take idx ++ src ++ buf.drop (idx + src.length)) (idx + src.length) 0
+        (bufSize + 1)).1 := by
+  have ht : src.take (bufSize - idx) = src := List.take_of_length_le (by omega)
+  simp only [readLoop, ht, h, if_true]
+
+theorem readLoop_full (src buf : List UInt8) (idx fuel : Nat) (h : bufSize - idx ≤ src.length) :
+    readLoop src buf idx (fuel + 1) =
+      (decodeWindow (buf.take idx ++ src.take (bufSize - idx) ++ buf.drop (idx + (bufSize - idx)))
+          (bufSize - carry) 0 (bufSize + 1)).1 ++
+        readLoop (src.drop (bufSize - idx))
+          ((buf.take idx ++ src.take (bufSize - idx) ++ buf.drop (idx + (bufSize - idx))).drop
+              (decodeWindow (buf.take idx ++ src.take (bufSize - idx) ++ buf.drop (idx + (bufSize - idx)))
+                (bufSize - carry) 0 (bufSize + 1)).2 ++
+            (buf.take idx ++ src.take (bufSize - idx) ++ buf.drop (idx + (bufSize - idx))).drop
+              ((buf.take idx ++ src.take (bufSize - idx) ++ buf.drop (idx + (bufSize - idx))).drop
+                (decodeWindow (buf.take idx ++ src.take (bufSize - idx) ++ buf.drop (idx + (bufSize - idx)))
+                  (bufSize - carry) 0 (bufSize + 1)).2).length)
+          ((buf.take idx ++ src.take (bufSize - idx) ++ buf.drop (idx + (bufSize - idx))).drop
+              (decodeWindow (buf.take idx ++ src.take (bufSize - idx) ++ buf.drop (idx + (bufSize - idx)))
+                (bufSize - carry) 0 (bufSize + 1)).2).length
+          fuel := by
+  have hl : (src.take (bufSize - idx)).length = bufSize - idx := by
+    rw [List.length_take]; omega
+  have hn : ¬ (bufSize - idx < bufSize - idx) := by omega
+  simp only [readLoop, hl, hn, if_false]
+
+/-- length bookkeeping for the carry-over copy -/
+theorem carry_lengths (buf1 : List UInt8) (m : Nat) (hl : buf1.length = bufSize)
+    (hm : bufSize - carry ≤ m) :
+    (buf1.drop m).length ≤ carry ∧
+      (buf1.drop m ++ buf1.drop (buf1.drop m).length).length = bufSize := by
+  simp only [List.length_append, List.length_drop, hl]
+  simp only [bufSize, carry] at *
+  omega
+
+theorem readLoop_spec : ∀ (fuel : Nat) (src buf : List UInt8) (idx : Nat), buf.length = bufSize →
+    idx ≤ carry → src.length < fuel → StableTail (buf.take idx ++ src) →
+    readLoop src buf idx fuel = decodeAll (buf.take idx ++ src) := by
+  intro fuel
+  induction fuel with
+  | zero => intro src buf idx _ _ h; omega
+  | succ fuel ih =>
+    intro src buf idx hbuf hidx hfuel hst
+    have hB : bufSize = 1024 := rfl
+    have hC : carry = 4 := rfl
+    have htk : (buf.take idx).length = idx := by rw [List.length_take]; omega
+    by_cases hshort : src.length < bufSize - idx
+    · -- final chunk: the window is the remaining input followed by stale bytes
+      rw [readLoop_short src buf idx fuel hshort]
+      have hRlen : (buf.take idx ++ src).length = idx + src.length := by
+        rw [List.length_append, htk]
+      obtain ⟨m, _, h2, h3, _, h5⟩ := win_spec (bufSize + 1)
+        (buf.take idx ++ src ++ buf.drop (idx + src.length)) (buf.take idx ++ src)
+        (idx + src.length) 0 (by omega) (by
+          intro p hp
+          refine ⟨by omega, ?_⟩
+          rw [List.drop_append_of_le_length (by omega)]
+          apply hst
+          · apply List.ne_nil_of_length_pos
+            rw [List.length_drop]; omega
+          · exact List.drop_suffix _ _)
+      have hm : m = (buf.take idx ++ src).length := by omega
+      rw [h5, hm, List.drop_length, decodeAll_nil, List.append_nil]
+    · -- a full buffer: 1024 genuine bytes, decoding stops in [1020, 1023]
+      have hfull : bufSize - idx ≤ src.length := by omega
+      rw [readLoop_full src buf idx fuel hfull]
+      have hdrop : buf.drop (idx + (bufSize - idx)) = [] := by
+        apply List.drop_eq_nil_of_le; omega
+      rw [hdrop, List.append_nil]
+      generalize hb1 : buf.take idx ++ src.take (bufSize - idx) = buf1
+      have hlen1 : buf1.length = bufSize := by
+        rw [← hb1, List.length_append, htk, List.length_take]; omega
+      have hR : buf.take idx ++ src = buf1 ++ src.drop (bufSize - idx) := by
+        rw [← hb1, List.append_assoc, List.take_append_drop]
+      obtain ⟨m, h1, h2, h3, h4, h5⟩ := win_spec (bufSize + 1) buf1 (buf.take idx ++ src)
+        (bufSize - carry) 0 (by omega) (by
+          intro p hp
+          refine ⟨by rw [hR, List.length_append]; omega, ?_⟩
+          rw [hR, List.drop_append_of_le_length (by omega)]
+          exact (decodeRune_local' _ _ (by rw [List.length_drop]; omega)).symm)
+      rw [Nat.zero_add] at h1
+      rw [h1]
+      obtain ⟨hc1, hc2⟩ := carry_lengths buf1 m hlen1 (by omega)
+      have hsuf : (buf1.drop m ++ src.drop (bufSize - idx)) <:+ (buf.take idx ++ src) := by
+        rw [hR, ← List.drop_append_of_le_length (by omega)]
+        exact List.drop_suffix _ _
+      have hih := ih (src.drop (bufSize - idx)) (buf1.drop m ++ buf1.drop (buf1.drop m).length)
+        (buf1.drop m).length hc2 hc1 (by rw [List.length_drop]; omega)
+        (by rw [List.take_left']; exact hst.of_suffix hsuf; rfl)
+      rw [hih, h5, List.take_left' rfl, hR, List.drop_append_of_le_length (by omega)]
+
+theorem feed_eq_decodeAll' (bs : List UInt8) (h : StableTail bs) : feed bs = decodeAll bs := by
+  have := readLoop_spec (bs.length + 2) bs (List.replicate bufSize 0) 0 (by simp) (by simp [carry])
+    (by omega) (by simpa using h)
+  simpa [feed] using this
+
+/-! ### padding -/
+
+theorem stableTail_pad (bs : List UInt8) (k : Nat) (h : StableTail bs) :
+    StableTail (List.replicate k 32 ++ bs) := by
+  induction k with
+  | zero => simpa using h
+  | succ k ih =>
+    rw [List.replicate_succ, List.cons_append]
+    exact ih.cons_ascii 32 (by decide)
+
+theorem decodeAll_pad (bs : List UInt8) (k : Nat) :
+    decodeAll (List.replicate k 32 ++ bs) = List.replicate k 32 ++ decodeAll bs := by
+  induction k with
+  | zero => simp
+  | succ k ih =>
+    rw [List.replicate_succ, List.cons_append, decodeAll_ne_nil _ (by simp)]
+    have : decodeRune (32 :: (List.replicate k 32 ++ bs)) = (32, 1) := by
+      simp [decodeRune]
+    rw [this]
+    simp [ih, List.replicate_succ]
+
+theorem feed_pad' (bs : List UInt8) (k : Nat) (h : StableTail bs) :
+    feed (List.replicate k 32 ++ bs) = List.replicate k 32 ++ feed bs := by
+  rw [feed_eq_decodeAll' _ (stableTail_pad bs k h), feed_eq_decodeAll' bs h, decodeAll_pad]
+
+/-! ### reader errors -/
+
+theorem readLoopR_eof : ∀ (fuel : Nat) (src buf : List UInt8) (idx : Nat),
+    readLoopR src .eof buf idx fuel = .ok (readLoop src buf idx fuel) := by
+  intro fuel
+  induction fuel with
+  | zero => intro src buf idx; simp [readLoopR, readLoop]
+  | succ fuel ih =>
+    intro src buf idx
+    simp only [readLoopR, readLoop, ih, endsInput, decide_true, Bool.not_true, Bool.false_eq_true,
+      and_false, if_false]
+    split <;> rfl
+
+theorem readLoopR_err (term : RErr) (hterm : term ≠ .eof) : ∀ (fuel : Nat) (src buf : List UInt8)
+    (idx : Nat), buf.length = bufSize → idx ≤ carry → src.length < fuel →
+    readLoopR src term buf idx fuel = .error term := by
+  intro fuel
+  induction fuel with
+  | zero => intro src buf idx _ _ h; omega
+  | succ fuel ih =>
+    intro src buf idx hbuf hidx hfuel
+    have hB : bufSize = 1024 := rfl
+    have hC : carry = 4 := rfl
+    have hE : endsInput term = false := by simp [endsInput, hterm]
+    have htk : (buf.take idx).length = idx := by rw [List.length_take]; omega
+    by_cases hshort : src.length < bufSize - idx
+    · have ht : src.take (bufSize - idx) = src := List.take_of_length_le (by omega)
+      simp [readLoopR, ht, hshort, hE]
+    · have hl : (src.take (bufSize - idx)).length = bufSize - idx := by
+        rw [List.length_take]; omega
+      have hn : ¬ (bufSize - idx < bufSize - idx) := by omega
+      simp only [readLoopR, hl, hn, false_and, if_false]
+      generalize hb1 : buf.take idx ++ src.take (bufSize - idx) ++ buf.drop (idx + (bufSize - idx)) = buf1
+      have hlen1 : buf1.length = bufSize := by
+        rw [← hb1, List.length_append, List.length_append, htk, hl, List.length_drop]; omega
+      have hge := (decodeWindow_ge (bufSize + 1) buf1 (bufSize - carry) 0 (by omega)).1
+      obtain ⟨hc1, hc2⟩ := carry_lengths buf1 _ hlen1 hge
+      rw [ih _ _ _ hc2 hc1 (by rw [List.length_drop]; omega)]
+
+theorem feedR_spec' (bs : List UInt8) (term : RErr) :
+    feedR bs term = (if term = .eof then .ok (feed bs) else .error term) := by
+  by_cases h : term = .eof
+  · subst h
+    simp [feedR, feed, readLoopR_eof]
+  · simp only [h, if_false]
+    exact readLoopR_err term h (bs.length + 2) bs (List.replicate bufSize 0) 0 (by simp)
+      (by simp [carry]) (by omega)
+
+/-! ### non-vacuity -/
+
+theorem nonvacuous_example :
+    StableTail [0xC3, 0xA9, 0x61] ∧ decodeAll [0xC3, 0xA9, 0x61] = [0xE9, 0x61] := by
+  refine ⟨(stableTail_of_ascii_end' [0xC3, 0xA9] 0x61 (by decide)).1, ?_⟩
+  simp [decodeAll, decodeAllW, decodeRune, isCont]
+
 end LC.V2Tok
